@@ -343,16 +343,38 @@ theorem objs_never_shrink (h : List Op) (op : Op) :
     (run h).1.objs.length ≤ (step (run h).1 op).1.objs.length := by
   rw [step_objs_length]; omega
 
-/-- a record created at any point of a history is still the one returned for its address after any
-continuation `h2` (any length) that does not assign `address_in` — however many other records were
-created meanwhile -/
-theorem created_record_survives (h1 h2 : List Op) (a : Val) (p1 : Patch) (x y : Nat) (au : Bool)
-    (ok : okHist init (h1 ++ Op.matchIncoming a true p1 :: (h2 ++ [Op.matchIncoming a au []])) = true)
+/-- a record created at any point of a history is still stored and is the one returned for its
+address after any continuation `h2` (any length, any number of other records created meanwhile) that
+does not assign `address_in` — with or without auto-create the lookup answers with the same object -/
+theorem created_record_survives (h1 h2 : List Op) (a : Val) (p1 : Patch) (x : Nat) (au : Bool)
+    (ok : okHist init (h1 ++ Op.matchIncoming a true p1 :: h2) = true)
     (hno : ∀ op ∈ Op.matchIncoming a true p1 :: h2, op.names .addressIn = false)
-    (r1 : (step (run h1).1 (.matchIncoming a true p1)).2 = .obj x)
-    (r2 : (step (runFrom (step (run h1).1 (.matchIncoming a true p1)).1 h2).1 (.matchIncoming a au [])).2 = .obj y) :
-    x = y :=
-  (same_address_same_object h1 h2 a true au p1 [] x y ok hno r1 r2).1
+    (r1 : (step (run h1).1 (.matchIncoming a true p1)).2 = .obj x) :
+    (step (runFrom (step (run h1).1 (.matchIncoming a true p1)).1 h2).1 (.matchIncoming a au [])).2 = .obj x := by
+  rw [okHist_append, Bool.and_eq_true] at ok
+  obtain ⟨ok1, ok⟩ := ok
+  rw [okHist_cons, Bool.and_eq_true] at ok
+  obtain ⟨okA, ok2⟩ := ok
+  have inv1 : Inv (run h1).1 := inv_run h1 ok1
+  simp only [run] at r1 inv1 ⊢
+  generalize hs1 : (runFrom init h1).1 = s1 at *
+  have inv2 : Inv (step s1 (.matchIncoming a true p1)).1 := inv_step inv1 _ okA
+  generalize hs2 : step s1 (.matchIncoming a true p1) = st2 at *
+  have inv3 : Inv (runFrom st2.1 h2).1 := inv_runFrom inv2 h2 ok2
+  generalize hs3 : (runFrom st2.1 h2).1 = s3 at *
+  have r1' : (s1.matchIncoming a true p1).2 = .obj x := by rw [← hs2] at r1; exact r1
+  obtain ⟨r0, ha0, hobj, _⟩ := matchIncoming_obj r1'
+  have hst2 : st2.1.objs[x]? = some (applyPatch p1 r0) := by rw [← hs2]; exact hobj
+  have haddr2 : (applyPatch p1 r0).addressIn = a := by
+    have := applyPatch_get_unnamed p1 r0 .addressIn (not_names (op := .matchIncoming a true p1) (hno _ List.mem_cons_self))
+    simpa [Rec.get, ha0] using this
+  obtain ⟨r3, hr3, e3⟩ := runFrom_field_stable st2.1 h2 .addressIn
+    (fun op hop => hno op (List.mem_cons_of_mem _ hop)) x _ hst2
+  rw [hs3] at hr3
+  have haddr3 : r3.addressIn = a := by simpa [Rec.get, haddr2] using e3
+  have hfirst := inv3.first_addr hr3 haddr3
+  simp only [step, Store.matchIncoming, hfirst]
+  exact (save_target s3 x [] r3 hr3).2
 
 /-! ## the hypotheses are satisfiable by non-trivial histories -/
 
